@@ -10,7 +10,8 @@ Fail-closed: any statement, expression or receiver outside the recognised shapes
 `unrecognised shape`.  Normalisations (meaning-preserving): docstrings, comments, annotations and `pass` vanish;
 `list(d.values())` / `tuple(d.values())` is `d.values()`; a local bound to `self.allobjects` is the registry;
 `f'{s} {i}'` is `s + ' ' + str(i)`; `x = next(n for n in itertools.count() if C(n))` is `x = 0; while not C(x): x += 1`;
-`not not c` is `c`; `a is not b` is `not (a is b)`; `k not in d` is `not (k in d)`; `elif` is a nested if;
+`not not c` is `c`; `a, b = e1, e2` on locals not read on the right is `a = e1; b = e2`;
+`for x in _iter_subtree(r): ...` is the primitive SForSubtree when _iter_subtree is the pinned pre-order generator; `a is not b` is `not (a is b)`; `k not in d` is `not (k in d)`; `elif` is a nested if;
 `if c: ...; return` followed by more statements is `if c: ... else: <the rest>`; a chained assignment is a sequence;
 an assignment to `.parentMod` (not modelled) is dropped; the message arguments of report()/raise are ignored;
 local variables are numbered in order of first use (their names do not matter)."""
@@ -49,7 +50,13 @@ WALK_METHODS = {'_remove': 'FRemove', '_handle_reparenting_pre': 'FPre', '_handl
 MODULE_CLASSES = {'_ModuleT', 'Module'}
 
 
+ITER_SUBTREE = ['pending = [root]',
+                'while pending:\n    ob = pending.pop()\n    yield ob\n    pending.extend(reversed(list(ob.contents.values())))']
+
+
 class Fn:
+    has_iter_subtree = False        # the source defines the pinned generator _iter_subtree
+
     """translation of one function body.  kind: 'system' (self is the System) or 'object' (self is a Documentable)"""
     def __init__(self, fn, short, kind, params, local_funcs=()):
         self.fn, self.short, self.kind = fn, short, kind
@@ -314,6 +321,14 @@ class Fn:
             v = s.value
             if v is None:
                 return None
+            # a, b = e1, e2  with locals a, b that e1, e2 do not read: a = e1; b = e2
+            if (len(targets) == 1 and isinstance(targets[0], ast.Tuple) and isinstance(v, ast.Tuple)
+                    and len(targets[0].elts) == len(v.elts) and all(isinstance(t, ast.Name) for t in targets[0].elts)):
+                names = [t.id for t in targets[0].elts]
+                read = {n.id for e in v.elts for n in ast.walk(e) if isinstance(n, ast.Name)}
+                if set(names) & read or len(set(names)) != len(names):
+                    bad('tuple assignment whose targets are read on the right', s)
+                return self.seq([self.stmt(ast.copy_location(ast.Assign(targets=[t], value=e), s)) for t, e in zip(targets[0].elts, v.elts)])
             # x = self.allobjects.setdefault(k, v)
             if (isinstance(v, ast.Call) and isinstance(v.func, ast.Attribute) and v.func.attr == 'setdefault'
                     and self.is_registry(v.func.value) and len(v.args) == 2 and not v.keywords):
@@ -374,6 +389,17 @@ class Fn:
         if isinstance(s, ast.For):
             if s.orelse or not isinstance(s.target, ast.Name):
                 bad('for loop', s)
+            if (isinstance(s.iter, ast.Call) and isinstance(s.iter.func, ast.Name) and s.iter.func.id == '_iter_subtree'
+                    and len(s.iter.args) == 1 and not s.iter.keywords):
+                if not Fn.has_iter_subtree:
+                    bad('_iter_subtree is not the pinned generator', s)
+                root = self.obj(s.iter.args[0])
+                before = set(self.bound)
+                x = self.var(s.target.id)
+                self.bound.add(s.target.id)
+                b = self.block(s.body)
+                self.bound = before
+                return 'SForSubtree %s (%s) (%s)' % (x, root, b)
             it = self.expr(s.iter)
             if not (it.startswith('EContentsValues') or it.startswith('EVar')):
                 bad('for iterable', s)
@@ -421,6 +447,15 @@ def generate() -> dict:
     tree = ast.parse(src)
     S = find_class(tree, 'System')
     D = find_class(tree, 'Documentable')
+    gens = [n for n in tree.body if isinstance(n, ast.FunctionDef) and n.name == '_iter_subtree']
+    Fn.has_iter_subtree = False
+    if gens:
+        g = gens[0]
+        body = [ast.unparse(x) for x in g.body if not is_doc(x)]
+        if (len(gens) != 1 or [a.arg for a in g.args.args] != ['root'] or g.args.vararg or g.args.kwarg or g.args.kwonlyargs
+                or g.decorator_list or body != ITER_SUBTREE):
+            bad('_iter_subtree is not the pinned explicit-stack pre-order walk', g)
+        Fn.has_iter_subtree = True
 
     fns = {}
 
